@@ -1,4 +1,6 @@
 import RP.Lemmas.Codec
+import RP.Lemmas.Abs
+import RP.Props.C15Pairs.All
 /-! # C15 — Compact numeric encodings are lossless
 
 Theorems about the packings of `RP/Model/Codec.lean` (the definitions the driver `drv_c15` runs
@@ -443,61 +445,6 @@ example : pathOfEdges (List.replicate 16 (Edge.raise 4 1)) = some 0xFFFFFFFFFFFF
     (pathToEdges 0xFFFFFFFFFFFFFFFF).map List.length = some 16 := by decide
 
 /-! ## Abstraction ↔ u64 / i64, Bucket, street from the bucket code -/
-/-- the 44-bit hash field of `Abstraction::from((street, index))` -/
-def absMid (s i : Nat) : Nat := ((i % 4096 + s * 4096) * absMul % 2^64) / 2^12 % 2^44
-/-- the three bit fields as a sum: index (12 bits), hash (44 bits), street tag (8 bits) -/
-def absBitsFast (s i : Nat) : Nat := i % 4096 + absMid s i * 2^12 + s * 2^56
-
-theorem absL_and (x : Nat) : absL &&& x = x % 2^12 := by
-  have : absL = 2^12 - 1 := by decide
-  rw [Nat.and_comm, this, Nat.and_two_pow_sub_one_eq_mod]
-theorem absM_and (x : Nat) : absM &&& x = (x / 2^12 % 2^44) * 2^12 := by
-  have : absM = (2^44 - 1) <<< 12 := by decide
-  rw [Nat.and_comm, this, and_field]
-theorem absH_and (x : Nat) : absH &&& x = (x / 2^56 % 2^8) * 2^56 := by
-  have : absH = (2^8 - 1) <<< 56 := by decide
-  rw [Nat.and_comm, this, and_field]
-theorem absLbits_eq : absLbits = 12 := by decide
-theorem absHshift_eq : absHshift = 56 := by decide
-
-theorem absOf_bits (s i : Nat) (hs : s < 4) : (absOf s i).bits = absBitsFast s i := by
-  have hu : streetU8 s = s := by
-    have : s = 0 ∨ s = 1 ∨ s = 2 ∨ s = 3 := by omega
-    rcases this with rfl | rfl | rfl | rfl <;> decide
-  simp only [absOf, signature, hu, absLbits_eq, absHshift_eq, absL_and, absM_and, absH_and, u64]
-  have e1 : i % 2 ^ 64 % 2 ^ 12 = i % 4096 := by omega
-  have e2 : (s <<< 12) % 2^64 = s <<< 12 := by rw [Nat.shiftLeft_eq]; omega
-  have e3 : (s <<< 56) % 2^64 = s * 2^56 := by rw [Nat.shiftLeft_eq]; omega
-  rw [e1, e2, e3, or_shl_eq _ _ _ (by omega)]
-  unfold absBitsFast absMid
-  generalize ((i % 4096 + s * 2 ^ 12) * absMul % 2 ^ 64) = y
-  generalize hm : y / 2 ^ 12 % 2 ^ 44 = m
-  have hm' : m < 2^44 := by omega
-  have e4 : m * 2 ^ 12 / 2 ^ 12 % 2 ^ 44 * 2 ^ 12 = m * 2^12 := by omega
-  have e5 : s * 2 ^ 56 / 2 ^ 56 % 2 ^ 8 * 2 ^ 56 = s * 2^56 := by
-    rw [Nat.mul_div_cancel _ (Nat.pow_pos (by omega)), Nat.mod_eq_of_lt (by omega)]
-  rw [e4, e5]
-  have e6 : i % 4096 ||| m * 2 ^ 12 = i % 4096 + m * 2^12 := by
-    rw [← Nat.shiftLeft_eq, or_shl_eq _ _ _ (by omega), Nat.shiftLeft_eq]
-  rw [e6]
-  rw [← Nat.shiftLeft_eq s 56, or_shl_eq _ _ _ (by omega), Nat.shiftLeft_eq]
-
-theorem absMid_lt (s i : Nat) : absMid s i < 2^44 := by unfold absMid; omega
-theorem absBitsFast_lt (s i : Nat) (hs : s < 4) : absBitsFast s i < 2^64 := by
-  have := absMid_lt s i; unfold absBitsFast; omega
-
-/-- street tag, index and variant of a constructed abstraction -/
-theorem absOf_fields (s i : Nat) (hs : s < 4) :
-    absTag (absOf s i).bits = s ∧ absIndex (absOf s i) = i % 4096 ∧ (absOf s i).bits < 2^64 := by
-  have hm := absMid_lt s i
-  unfold absTag absIndex
-  rw [absOf_bits s i hs, absH_and, absL_and, absHshift_eq, Nat.shiftRight_eq_div_pow]
-  unfold absBitsFast
-  refine ⟨by omega, by omega, by omega⟩
-
-theorem variant_tables : ∀ s, s < 4 → lookup C15.absTagVariant s = some (C15.absStreetVariant.getD s 255) ∧
-    lookup C15.absTagStreet s = some s := by decide
-
 /-- values of `Abstraction`: the enum variant agrees with the street tag of the word -/
 def AbsValid (a : Abs) : Prop := a.bits < 2^64 ∧ lookup C15.absTagVariant (absTag a.bits % 256) = some a.variant
 
@@ -552,5 +499,75 @@ theorem C15_bucket_street (p f s i : Nat) (hs : s < 4) :
     bucketStreetOfCodes (bucketToCodes ⟨p, absOf s i, f⟩) = some s := by
   unfold bucketStreetOfCodes bucketToCodes
   exact (C15_abs_of_roundtrip s i hs).2
+
+/-! ## Pair keys -/
+theorem pairKey_fast (s i j : Nat) (hs : s < 4) : pairKey (absOf s i) (absOf s j) = fastKey s i j := by
+  have : C15.pairOp = 0 := rfl
+  simp only [pairKey, this, absToU64, absOf_bits _ _ hs, fastKey]
+
+theorem absBitsFast_low (s i : Nat) : absBitsFast s i % 2^12 = i % 4096 := by
+  unfold absBitsFast
+  have h56 : s * 2^56 = (s * 2^44) * 2^12 := by rw [Nat.mul_assoc]
+  rw [h56]; omega
+
+/-- **A collision of two pair keys forces equal `i xor j`** (the low 12 bits of a key). -/
+theorem C15_pair_collision_low_bits (s s' i j i' j' : Nat) (hs : s < 4) (hs' : s' < 4)
+    (hi : i < 4096) (hj : j < 4096) (hi' : i' < 4096) (hj' : j' < 4096)
+    (h : pairKey (absOf s i) (absOf s j) = pairKey (absOf s' i') (absOf s' j')) : i ^^^ j = i' ^^^ j' := by
+  rw [pairKey_fast _ _ _ hs, pairKey_fast _ _ _ hs'] at h
+  have := congrArg (· % 2^12) h
+  simp only [fastKey, Nat.xor_mod_two_pow, absBitsFast_low] at this
+  rwa [Nat.mod_eq_of_lt hi, Nat.mod_eq_of_lt hj, Nat.mod_eq_of_lt hi', Nat.mod_eq_of_lt hj'] at this
+
+theorem learned_small : ∀ sk ∈ learned, sk.1 < 4 ∧ sk.2 ≤ 256 := by decide
+
+theorem mem_entries (s i j : Nat) (hs : s = 1 ∨ s = 2 ∨ s = 3) (hij : i < j) (hj : j < nAbstractions s) :
+    (s, i, fastKey s i j) ∈ entries (i ^^^ j) := by
+  have hx : i ^^^ (i ^^^ j) = j := by rw [← Nat.xor_assoc, Nat.xor_self, Nat.zero_xor]
+  unfold entries
+  rw [List.mem_flatMap]
+  refine ⟨(s, nAbstractions s), by rcases hs with rfl | rfl | rfl <;> decide, ?_⟩
+  rw [List.mem_filterMap]
+  refine ⟨i, List.mem_range.mpr (by omega), ?_⟩
+  simp only [hx, hij, hj, and_self, if_true, force_eq]
+
+/-- **Pair keys are collision-free**: inside the flop, turn and river bucket sets and across the three,
+two unordered pairs `{i, j}` (written `i < j`) with the same key are the same pair of the same street.
+Covers all C(128,2) + C(144,2) + C(101,2) = 23,474 keys (the counts are the generated constants). -/
+theorem C15_pair_keys_distinct (s s' i j i' j' : Nat) (hs : s = 1 ∨ s = 2 ∨ s = 3) (hs' : s' = 1 ∨ s' = 2 ∨ s' = 3)
+    (hij : i < j) (hj : j < nAbstractions s) (hij' : i' < j') (hj' : j' < nAbstractions s')
+    (h : pairKey (absOf s i) (absOf s j) = pairKey (absOf s' i') (absOf s' j')) : s = s' ∧ i = i' ∧ j = j' := by
+  have hk : nAbstractions s ≤ 256 := by rcases hs with rfl | rfl | rfl <;> decide
+  have hk' : nAbstractions s' ≤ 256 := by rcases hs' with rfl | rfl | rfl <;> decide
+  have hs4 : s < 4 := by omega
+  have hs4' : s' < 4 := by omega
+  have hd := C15_pair_collision_low_bits s s' i j i' j' hs4 hs4' (by omega) (by omega) (by omega) (by omega) h
+  have hlt : i ^^^ j < 2^8 := Nat.xor_lt_two_pow (by omega) (by omega)
+  have hr := RP.C15Pairs.all_d (i ^^^ j) hlt
+  have m1 := mem_entries s i j hs hij hj
+  have m2 := mem_entries s' i' j' hs' hij' hj'
+  rw [← hd] at m2
+  rw [pairKey_fast _ _ _ hs4, pairKey_fast _ _ _ hs4'] at h
+  have e := rdx_spec 44 _ hr _ m1 _ m2 h
+  have e1 : s = s' := congrArg (·.1) e
+  have e2 : i = i' := congrArg (·.2.1) e
+  refine ⟨e1, e2, ?_⟩
+  have : i ^^^ (i ^^^ j) = i' ^^^ (i' ^^^ j') := by rw [hd, e2]
+  rwa [← Nat.xor_assoc, Nat.xor_self, Nat.zero_xor, ← Nat.xor_assoc, Nat.xor_self, Nat.zero_xor] at this
+
+/-- within one street's bucket set -/
+theorem C15_pair_keys_distinct_within (s i j i' j' : Nat) (hs : s = 1 ∨ s = 2 ∨ s = 3)
+    (hij : i < j) (hj : j < nAbstractions s) (hij' : i' < j') (hj' : j' < nAbstractions s)
+    (h : pairKey (absOf s i) (absOf s j) = pairKey (absOf s i') (absOf s j')) : i = i' ∧ j = j' :=
+  (C15_pair_keys_distinct s s i j i' j' hs hs hij hj hij' hj' h).2
+/-- the key does not depend on the order of the pair -/
+theorem C15_pair_symmetric (a b : Abs) : pairKey a b = pairKey b a := by
+  have : C15.pairOp = 0 := rfl
+  simp only [pairKey, this, Nat.xor_comm]
+/-- the stored `i64` form of a key -/
+theorem C15_pair_i64 (k : Nat) (h : k < 2^64) : pairOfI64 (pairToI64 k) = k := ofI64_toI64 k h
+-- the group d = 1 holds 64 + 72 + 50 keys; 255 such groups make up the 23,474 keys
+example : (entries 1).length = 186 := by decide +kernel
+example : pairKey (absOf 1 0) (absOf 1 1) = fastKey 1 0 1 ∧ fastKey 1 0 1 % 4096 = 1 := by decide
 
 end RP.C15
